@@ -1,8 +1,14 @@
 package c08
 
 import (
+	"context"
+	"errors"
 	"fmt"
 	"testing"
+
+	"github.com/notaryproject/notation-go"
+	ocispec "github.com/opencontainers/image-spec/specs-go/v1"
+	"verifharness/internal/mocks"
 
 	"pgregory.net/rapid"
 
@@ -65,6 +71,57 @@ func TestC08_UniqueFallback(t *testing.T) {
 		}
 		if cerr == nil {
 			rec.Failf(rt, "C08:"+kind+":two-fallback-statements-accepted:constructor", c, "a verifier can be constructed from a %s document with more than one fallback statement", kind)
+		}
+	})
+}
+
+// failingRepo is a registry that cannot be reached (or does not hold the artifact).
+type failingRepo struct{ contacted []string }
+
+func (r *failingRepo) Resolve(ctx context.Context, ref string) (ocispec.Descriptor, error) {
+	r.contacted = append(r.contacted, "resolve:"+ref)
+	return ocispec.Descriptor{}, errors.New("scripted: registry unreachable")
+}
+func (r *failingRepo) ListSignatures(ctx context.Context, d ocispec.Descriptor, fn func([]ocispec.Descriptor) error) error {
+	r.contacted = append(r.contacted, "list")
+	return errors.New("scripted: registry unreachable")
+}
+func (r *failingRepo) FetchSignatureBlob(ctx context.Context, d ocispec.Descriptor) ([]byte, ocispec.Descriptor, error) {
+	r.contacted = append(r.contacted, "fetch")
+	return nil, ocispec.Descriptor{}, errors.New("scripted: registry unreachable")
+}
+func (r *failingRepo) PushSignature(ctx context.Context, mediaType string, blob []byte, subject ocispec.Descriptor, annotations map[string]string) (ocispec.Descriptor, ocispec.Descriptor, error) {
+	return ocispec.Descriptor{}, ocispec.Descriptor{}, errors.New("scripted: registry unreachable")
+}
+
+// TestC08_RefusalThroughTheRegistryEntryPoint: "failing that, verification is refused with a
+// no-applicable-policy error" - also through notation.Verify, and whatever state the registry is
+// in: which statement applies is a matter of the reference and the document alone. References
+// that no statement covers are verified against a registry that cannot be reached; the error
+// must be the no-applicable-policy error.
+func TestC08_RefusalThroughTheRegistryEntryPoint(t *testing.T) {
+	rec := stats.New(t, "C08", rule)
+	rp.Check(t, 400, 20000, func(rt *rapid.T) {
+		d := genOCIDoc(rt, true)
+		ref := genRef(rt, d)
+		want, how := modelOCI(d.Stmts, ref.Text)
+		c := Case{Family: "registry-entry", Kind: "oci", Stmts: d.Stmts, Ref: ref.Text, RefKind: ref.Kind, Lenient: ref.Lenient, Via: "notation.Verify"}
+		cl := []string{"via=notation.Verify-unreachable-registry", "registry-entry:hit=" + how}
+		rec.Case(cl, how == "none", stats.Fingerprint("registry-entry", docSig(d.Stmts), ref.Text), func() any { return c })
+		if how != "none" || ref.Lenient || want >= 0 {
+			return // a statement applies (or the statement is silent about this reference): C10's business
+		}
+		opts := kit.Options()
+		opts.OCITrustPolicy = buildOCI(d.Stmts, nil)
+		v, err := verifier.NewVerifierWithOptions(mocks.NewTrustStore(), opts)
+		if err != nil {
+			rt.Fatalf("harness: verifier construction rejected a generated document: %v", err)
+		}
+		repo := &failingRepo{}
+		_, _, verr := notation.Verify(context.Background(), v, repo, notation.VerifyOptions{ArtifactReference: ref.Text, MaxSignatureAttempts: 3})
+		var noPolicy notation.ErrorNoApplicableTrustPolicy
+		if verr == nil || !errors.As(verr, &noPolicy) {
+			rec.Failf(rt, "C08:registry-entry:not-refused-with-no-applicable-policy", c, "no statement applies to %q, notation.Verify over an unreachable registry returned %T (%v), not ErrorNoApplicableTrustPolicy (registry contacted: %v)", ref.Text, verr, verr, repo.contacted)
 		}
 	})
 }
